@@ -33,7 +33,9 @@ def _verify_target(args):
         out["file"] = c.file
         try:
             obls, sha, fn = eng.verify_function(c)
-        except (Unsupported, SpecError) as e:
+        except Exception as e:
+            # Unsupported / SpecError: the function (as it is now) is outside the supported subset or the contract no longer
+            # applies to it; any other exception of the generator on this function is reported the same way (nothing is proved)
             out["unsupported"] = "%s: %s" % (type(e).__name__, e)
             if os.environ.get("PYVC_TB"): out["unsupported"] += "\n" + traceback.format_exc()
             out["wall_s"] = round(time.time() - t0, 2)
